@@ -1055,7 +1055,7 @@ Grammar makeGrammar(const std::string & prop)
 		{ K_HASANY, "hasAnyListener", 1, ArgSpec(0, 0), ArgSpec(0, 0), slotArg, -1, 0 },
 	};
 	if(multi) {
-		const int w = prop == "C10" ? 6 : 2;
+		const int w = prop == "C10" ? 6 : (prop == "C08" || prop == "C09") ? 4 : 2;
 		top.kinds.push_back({ K_NEWLIST, "newList", w, ArgSpec(0, 0), ArgSpec(0, 3), ArgSpec(0, 0), -1, 0 });
 		top.kinds.push_back({ K_COPYCTOR, "copyCtor", w, ArgSpec(0, 3), ArgSpec(0, 3), ArgSpec(0, 0), -1, 0 });
 		top.kinds.push_back({ K_COPYASSIGN, "copyAssign", w, ArgSpec(0, 0), ArgSpec(0, 3), slotArg, -1, 0 });
@@ -1162,7 +1162,13 @@ Verdict runOnce(const Program & p, const std::string & prop, FaultPlan * plan)
 
 Verdict run(const Program & p, const std::string & prop)
 {
-	if(prop != "C09") return runOnce(p, prop, nullptr);
+#ifdef VF_FAULTS
+	// the fault variant also serves C08: "destroyed exactly once, never leaked ... including exceptions"
+	const bool inject = prop == "C09" || prop == "C08";
+#else
+	const bool inject = prop == "C09";
+#endif
+	if(! inject) return runOnce(p, prop, nullptr);
 	return faultOrchestrate(p, [&](const Program & q, FaultPlan & plan, Verdict & out) { out = runOnce(q, prop, &plan); });
 }
 
